@@ -572,6 +572,37 @@ def extract_part(repo, spec):
     raise LostAnchor("unknown part %s" % part)
 
 
+def region_span(text, re1, re2, occ=1):
+    """(start, end) offsets in `text` of the line-anchored region /re1/../re2/ (inclusive), the end extended so that every
+    bracket opened inside is closed (plus the rest of that line)."""
+    rx1, rx2 = re.compile(re1), re.compile(re2)
+    lines = text.split("\n")
+    offs, pos = [], 0
+    for ln in lines:
+        offs.append(pos)
+        pos += len(ln) + 1
+    first = [i for i, ln in enumerate(lines) if rx1.search(ln)]
+    if len(first) < occ:
+        raise LostAnchor("region start /%s/ (#%d) not found" % (re1, occ))
+    i0 = first[occ - 1]
+    i1 = next((i for i in range(i0, len(lines)) if rx2.search(lines[i])), None)
+    if i1 is None:
+        raise LostAnchor("region end /%s/ not found" % re2)
+    s, e = offs[i0], offs[i1] + len(lines[i1])
+    toks = tokenize(text)
+    match = match_brackets(toks)
+    need = e
+    for k, t in enumerate(toks):
+        if t.start >= s and t.end <= e and t.kind == "punct" and t.text in ("(", "[", "{"):
+            c = match[k]
+            if toks[c].end > need:
+                need = toks[c].end
+    if need > e:
+        nl = text.find("\n", need)
+        e = nl if nl >= 0 else need
+    return s, e
+
+
 # --------------------------------------------------------------------------------------------
 # template expansion
 
